@@ -110,6 +110,12 @@ def node_session(v, pid, cmds, tier, seed, rule, prefixes=None, timeout=3000, ra
             return cmd, run_cmd(s, b, cmd, tier, seed, timeout=timeout, sub=cmd), None
         except HarnessCrash as e:
             return cmd, None, e
+        except RuntimeError as e:
+            # the process hosting the nodes exited abnormally outside a noted scenario (e.g. an abort inside the storage
+            # engine while a node is being opened or closed): still a death of the code under test, not of the machinery
+            if "failed rc=" in str(e):
+                return cmd, None, HarnessCrash(str(e), "(no scenario noted; output tail: %s)" % str(e)[-600:])
+            raise
 
     with ThreadPoolExecutor(max_workers=3) as ex:
         outs = list(ex.map(one, cmds))
